@@ -157,4 +157,17 @@ pub fn run(r: &mut Runner) {
             }
         }
     });
+    {
+        let org = crate::organic::states(if quick { 1 } else { 2 });
+        let no = org.len();
+        r.notes.push(format!("organic operands: {} chain states (depth {} from the C01 seeds)", no, if quick { 1 } else { 2 }));
+        r.par("organic operands (chain results)", no.div_ceil(256), no as u64, |c, l| {
+            for i in (c * 256)..((c + 1) * 256).min(no) {
+                for call in 0..2 {
+                    let v = judge_angle(call, org[i], Some(l));
+                    rec.record(l, (1u64 << 60) + (i * 2 + call) as u64, v);
+                }
+            }
+        });
+    }
 }
